@@ -803,6 +803,82 @@ pub fn method_order_cases() -> Vec<(Case, Expect)> {
     v
 }
 
+// ------------------------------------------------------------------ family X: same-named types in two modules
+
+/// Two imported modules each declare `type Pt` with their own ToString / Equal / Ord implementations; the main file
+/// uses generic functions and interface methods at both. (file texts, expected emits)
+fn two_module_program() -> (Vec<(String, String)>, Vec<Emit>) {
+    let module = |tag: i64, who: &str| {
+        format!(
+            "use vh\ntype Pt = {{\n  x: int\n}}\nimplement ToString for Pt {{\n  fn str(p) {{\n    vh_emit_int({})\n    \"{who}.Pt(\" .. p.x .. \")\"\n  }}\n}}\n\
+implement Equal for Pt {{\n  fn equal(a, b) {{\n    vh_emit_int({})\n    a.x == b.x\n  }}\n}}\n\
+implement Ord for Pt {{\n  fn less_than(a, b) {{\n    vh_emit_int({})\n    a.x < b.x\n  }}\n  fn less_than_or_equal(a, b) = a.x <= b.x\n  fn greater_than(a, b) = a.x > b.x\n  fn greater_than_or_equal(a, b) = a.x >= b.x\n}}\n\
+fn mk(n: int) -> Pt = Pt(n)\n",
+            tag + 6,
+            tag + 1,
+            tag + 2
+        )
+    };
+    let main = "use vh\nuse alpha as al\nuse beta as be\n\
+fn show(x: T ToString) -> string = \"<\" .. x .. \">\"\n\
+fn same(a: T Equal, b: T) -> bool = a == b\n\
+fn smaller(a: T Ord, b: T) -> T {\n  if a < b {\n    a\n  } else {\n    b\n  }\n}\n\
+let a1: al.Pt = al.Pt(1)\nlet a2: al.Pt = al.Pt(2)\nlet b1: be.Pt = be.Pt(1)\nlet b2: be.Pt = be.Pt(2)\n\
+vh_emit_str(show(a1))\nvh_emit_str(show(b1))\nvh_emit_str(show(a2))\n\
+vh_emit_bool(same(a1, a2))\nvh_emit_bool(same(b1, b1))\n\
+vh_emit_str(\"\" .. smaller(a2, a1))\nvh_emit_str(\"\" .. smaller(b1, b2))\n\
+vh_emit_str(\"\" .. [a1, a2])\nvh_emit_str(\"\" .. [b1])\n\
+vh_emit_bool([a1] == [a2])\nvh_emit_bool([b2] == [b2])\n\
+vh_emit_str(\"\" .. option.some(b2))\nvh_emit_str(\"\" .. option.some(a2))\n";
+    let s = |x: &str| Emit::Str(x.into());
+    let exp = vec![
+        ei(1106), s("<alpha.Pt(1)>"), ei(2106), s("<beta.Pt(1)>"), ei(1106), s("<alpha.Pt(2)>"),
+        ei(1101), Emit::Bool(false), ei(2101), Emit::Bool(true),
+        ei(1102), ei(1106), s("alpha.Pt(1)"), ei(2102), ei(2106), s("beta.Pt(1)"),
+        ei(1106), ei(1106), s("[ alpha.Pt(1), alpha.Pt(2) ]"), ei(2106), s("[ beta.Pt(1) ]"),
+        ei(1101), Emit::Bool(false), ei(2101), Emit::Bool(true),
+        ei(2106), s("some(beta.Pt(2))"), ei(1106), s("some(alpha.Pt(2))"),
+    ];
+    (vec![("main.abra".into(), main.to_string()), ("alpha.abra".into(), module(1100, "alpha")), ("beta.abra".into(), module(2100, "beta"))], exp)
+}
+
+fn run_two_modules(out: &mut UnitOut) {
+    if !out.begin_case(0) {
+        return;
+    }
+    let (files, exp) = two_module_program();
+    let name = "two modules declare a type of the same name: generic functions and interface methods at both";
+    out.describe_case(&format!("{name}\n{}", files[0].1));
+    out.evaluations += 1;
+    out.nontrivial_text(name);
+    let mut src = crate::drive::Src::with_vh(&files[0].1);
+    for (n, t) in &files[1..] {
+        src = src.add(n, t);
+    }
+    let key = format!("input:{}", hkey(name));
+    let files_json = json!(files.iter().map(|(n, t)| json!({"file": n, "text": t})).collect::<Vec<_>>());
+    match crate::drive::compile(&src, COpts::default()) {
+        crate::drive::Compiled::Ok(p) => {
+            let r = crate::drive::run(&p, &src.host_table(), crate::drive::StdHost::default(), ROpts { budget: 1000, max_steps: 500_000 });
+            if r.end == crate::drive::End::Done && r.host.emits == exp {
+                out.class("ok:values as modelled");
+                out.sample(json!({"case": name, "emits": r.host.emits.len()}));
+            } else {
+                out.class("violation");
+                out.violation(
+                    vec![key],
+                    format!("{name}: expected emits {exp:?}, observed end={} emits={:?}", crate::batch::short_end(&r.end), r.host.emits),
+                    json!({"case": name, "files": files_json, "expected": format!("{exp:?}"), "observed": format!("{:?}", r.host.emits)}),
+                );
+            }
+        }
+        other => {
+            out.class("violation");
+            out.violation(vec![key], format!("{name}: program rejected / compiler panic: {}", other.class()), json!({"case": name, "files": files_json}));
+        }
+    }
+}
+
 // ------------------------------------------------------------------ Prop
 
 const G_PER_UNIT: usize = 120;
@@ -819,7 +895,7 @@ impl Prop for C22 {
         "exploration"
     }
     fn n_units(&self, tier: Tier) -> usize {
-        n_g_units(tier) + 3
+        n_g_units(tier) + 4
     }
     fn run_unit(&self, tier: Tier, unit: usize, out: &mut UnitOut) {
         let ng = n_g_units(tier);
@@ -836,6 +912,8 @@ impl Prop for C22 {
             let all = gen_cases(tier, true);
             let cases: Vec<Case> = all.iter().map(|x| x.0.clone()).collect();
             run_cases(out, 0, &cases, 1, COpts::default(), ro, |out, k, c, r| judge_gen(out, c, &all[k].1, r));
+        } else if unit == ng + 3 {
+            run_two_modules(out);
         } else {
             let num = unit == ng + 2;
             let all = direct_cases(num);
@@ -853,7 +931,7 @@ impl Prop for C22 {
             "G: generic functions {:?} × all ordered pairs (A, B) of the instantiation types satisfying the constraint, types = {:?}; each case calls the generic at A, B and A again \
              (two-parameter generics at (A,B), (B,A), (A,A)) and then the hand-monomorphised copies; oracle: equal traces (tags emitted by the user implementations + structural rendering of results) \
              and no tag of a type outside A, B. D: every comparison operator on all value pairs of the user struct and the user enum, `..`, method / interface-qualified / type-qualified calls, clone, \
-             a user interface, containers of user types through the prelude's generic implementations, `for` / indexing / indexed assignment on two user containers, Num operators, and a three-method user interface and the prelude's Ord implemented with the methods written in every / another order (interface-qualified, member and generic calls), and generic functions (with locals, lambdas, nested lambdas and tasks using the generic parameter) instantiated at void next to another type; oracle: exact tag sequence and value \
+             a user interface, containers of user types through the prelude's generic implementations, `for` / indexing / indexed assignment on two user containers, Num operators, and a three-method user interface and the prelude's Ord implemented with the methods written in every / another order (interface-qualified, member and generic calls), and generic functions (with locals, lambdas, nested lambdas and tasks using the generic parameter) instantiated at void next to another type, and one three-file program in which two modules declare a type of the same name with their own implementations; oracle: exact tag sequence and value \
              from a Rust model of the user implementations. Every case is counted as non-trivial (each executes at least one dispatch); distinct by case name.",
             GENS.iter().map(|g| g.name).collect::<Vec<_>>(),
             types(tier).iter().map(|t| t.expr()).collect::<Vec<_>>()
